@@ -47,6 +47,21 @@ check("C18", "exploration",
       "bounded-exhaustive enumeration of all operand tuples on the real code (explicit reference model)",
       "DESIGN.md §3/C18")
 
+check("C01", "model_checking",
+      "Explicit-state breadth-first search of the 'parser machine' executed on the real code: a state is the configuration of "
+      "bison automaton + lexer + builder stacks + document after a token prefix, a transition appends one token of the "
+      "alphabet; 288 searches from grammar-context seeds through every entry point (17 XML text-block kinds incl. LSC, whole "
+      "XTA, queries with TigaPropertyBuilder, PrettyPrinter, 3.x syntax, bare blocks), sanitized build (ASan+UBSan) at depth 2 "
+      "(quick) / 3 (thorough) plus -O2+libstdc++-assertions build one level deeper, pruned on a state digest taken at the "
+      "observation point before end of input; then every single structural/byte fault and truncation of a kitchen-sink XML "
+      "document and the repository models (buffer/fd/file), and 35 growth families for recursion depth and time "
+      "proportionality. Oracle: returns or throws std::exception, no sanitizer/assertion report, process alive, in time.",
+      "No hand model: every transition is an execution of the implementation (traces_validated_against_impl = runs). Pruning "
+      "is sound if the digest covers what later callbacks read (DESIGN.md §3/C01); 'shape'-digest runs are heuristic. Bounded: "
+      "token strings up to the depth from the listed seeds/alphabets; single (thorough: sampled pairs of) XML faults.",
+      "explicit-state BFS with state-digest pruning over the real parser/builder (stateless replay of prefixes) + exhaustive fault enumeration",
+      "DESIGN.md §3/C01")
+
 check("C02", "exploration",
       "Every abstract expression tree of the enumeration (all constructors; all parent/slot/child triples; in the thorough "
       "tier all depth-3 chains and all binary parents with two compound operands) is rendered with full and with "
